@@ -819,3 +819,9 @@ impl TrainDisp {
         errors.make_err()
     }
 }
+
+// Verification hook (inert unless built with `--cfg nrel_altrios_verif` or under `cargo kani`).
+#[cfg(any(kani, nrel_altrios_verif))]
+mod verif_hook {
+    include!(concat!(env!("NREL_ALTRIOS_VERIF_DIR"), "/hooks/meet_pass__train_disp__free_path.rs"));
+}
